@@ -122,6 +122,13 @@ def allow_args(func: F) -> F:
             )
             raise ValueError(msg)
 
+        # Keyword arguments must be exactly the parameters that are not bound positionally
+        expected_kwargs = list(parameters)[len(args) :]
+        if set(kwargs) != set(expected_kwargs):
+            raise ValueError(
+                f"Expected keyword arguments: {expected_kwargs}, got: {list(kwargs)}",
+            )
+
         # Convert all arguments to positional arguments in correct order
         positional = list(args) + convert_kwargs_to_args(kwargs, list(parameters))
 
